@@ -29,8 +29,8 @@ Ip6Wire(h, body) ==
 
 IpWire(h) == IF h.ver = 4 THEN Ip4Wire(h, TcpWire(h)) ELSE Ip6Wire(h, TcpWire(h))
 
-EthHdr(ver) == <<2, 0, 0, 0, 0, 2, 2, 0, 0, 0, 0, 1>> \o (IF ver = 4 THEN <<8, 0>> ELSE <<134, 221>>)
-Frame(link, h) == CASE link = "eth"  -> EthHdr(h.ver) \o IpWire(h)
+EthHdr(h) == h.dmac \o h.smac \o (IF h.ver = 4 THEN <<8, 0>> ELSE <<134, 221>>)
+Frame(link, h) == CASE link = "eth"  -> EthHdr(h) \o IpWire(h)
                     [] link = "raw"  -> IpWire(h)
                     [] link = "null" -> <<30, 0, 0, 0>> \o IpWire(h)
 
@@ -39,7 +39,7 @@ Src6 == <<32, 1, 13, 184, 0, 0, 0, 0, 0, 0, 0, 0, 0, 0, 0, 1>>
 Dst6 == <<32, 1, 13, 184, 0, 0, 0, 0, 0, 0, 0, 0, 0, 0, 0, 2>>
 
 \* a plain SYN, to be modified with EXCEPT
-BaseHdr(ver) == [ver |-> ver, vnib |-> ver, ttl |-> 64, ihl |-> 5, tos |-> 0, ipid |-> 4660, rf |-> FALSE, df |-> TRUE, mf |-> FALSE, frag |-> 0,
+BaseHdr(ver) == [ver |-> ver, vnib |-> ver, dmac |-> <<2, 0, 0, 0, 0, 2>>, smac |-> <<2, 0, 0, 0, 0, 1>>, ttl |-> 64, ihl |-> 5, tos |-> 0, ipid |-> 4660, rf |-> FALSE, df |-> TRUE, mf |-> FALSE, frag |-> 0,
                  flow |-> <<0, 0>>, proto |-> 6, src |-> IF ver = 4 THEN Src4 ELSE Src6, dst |-> IF ver = 4 THEN Dst4 ELSE Dst6,
                  sport |-> 40000, dport |-> 80, seq |-> <<18, 52, 86, 120>>, ack |-> Zero4, doff |-> 5, flags |-> SYN,
                  win |-> 65535, urg |-> 0, opts |-> <<>>, payload |-> <<>>]
